@@ -70,6 +70,7 @@ func VerifC05_Ids() {
 
 var VerifEntries = map[string]func(){
 	"VerifC05_Ids":             VerifC05_Ids,
+	"VerifC04_Election":        VerifC04_Election,
 	"VerifC06_Rekey":           VerifC06_Rekey,
 	"VerifC06_Signatures":      VerifC06_Signatures,
 	"VerifC06_SignaturesThree": VerifC06_SignaturesThree,
